@@ -7,6 +7,24 @@ CLAIMED = {
  "C03": ("vsim", "exploration", "deterministic simulation: seeded schedule search (random/sticky/PCT/starvation, basic-block preemption) over the unmodified thread pool, exactly-once/late-task/deadlock/livelock oracles, TSan-in-the-loop race oracle",
          "Seeded search over interleavings of the dispatcher and pool workers at atomic-operation and basic-block granularity, over short create/resize/dispatch/destroy histories; every failure replays from a decision list. Sampling, not exhaustive: the right level for a lock-free protocol whose bugs need specific interleavings.",
          "Sequentially consistent execution (weak-memory mistakes only via the TSan stage); std::atomic/std::thread re-bound by a force-included prelude; engine_thread.cc unmodified.", "3/C03"),
+ "C18": ("histsim", "exploration", "deterministic simulation of operation histories in simulated time: seeded scenes with sleeping enabled, user events (state/force writes, mocap moves, equality toggles) injected at seeded instants, invariants checked after every step plus a sleep-off twin",
+         "Seeded search over (scene, event history); invariants are evaluated after every simulated step.",
+         "qpos events move a joint by >= 0.02; 'touches' asserted only for penetrating active contacts; twin compared only while no tree has slept.", "4/C18"),
+ "C20": ("faultsim", "fault_enumeration", "fault injection by enumeration: every arena size (step 8 bytes) from 0 to the need of forward+3 steps makes a different arena allocation the first to fail; ASan build with the engine's own arena poisoning; outcome compared with the ample-memory run",
+         "Exhaustive over arena sizes (8-byte steps) for each seeded model whose need is below the per-model execution budget; boundaries plus a seeded sample above it. Models are sampled from scene families chosen per allocation site.",
+         "mju_error from the stack allocator is an accepted outcome; truncation must be signalled by a warning.", "4/C20"),
+ "C21": ("faultsim", "fault_enumeration", "fault injection by enumeration: the k-th call of the public allocator hook fails, for every k of three API scenarios, then seeded multi-fault runs; tracking allocator (leak / double free / foreign free), ASan+UBSan, fault-free re-run in the same process as recovery oracle",
+         "Exhaustive single allocation faults per (model, scenario); seeded multi-fault sequences; models sampled.",
+         "Only mju_malloc blocks are tracked; listed leak shapes are known findings (mju_malloc raises inside itself).", "4/C21"),
+ "C30": ("histsim", "exploration", "deterministic simulation with fault injection into a running simulation: NaN/Inf/huge values written into state and input arrays at seeded steps; finite-state invariant after every step, warning counters, reset-twin equality",
+         "Seeded search over (model, control history, fault value x location x instant, autoreset, sleep).",
+         "Four recorded findings (act of disabled actuator, RK4 sub-stages, mocap_pos with implicit integrators) are tolerated by key; everything else is a violation.", "4/C30"),
+ "C31": ("faultsim", "fault_enumeration", "fault injection on a simulated disk (registered resource provider): torn/short/failed/lost writes and short reads, every truncation length (crash points), byte/field/burst corruption at rest; exact-size heap buffers under ASan; tracking allocator for leaks on rejection; independent bounds table",
+         "Exhaustive truncation lengths for files up to the tier's bound (boundaries+sample above); exhaustive single-byte substitutions over header and sizes within budget; illegal and boundary values in 36 cross-reference fields; seeded bursts. Models sampled.",
+         "An mju_error is accepted only when it is the harness's own allocation cap; -1 accepted in non-optional reference fields is a recorded finding.", "4/C31"),
+ "C39": ("histsim", "exploration", "deterministic simulation of operation histories against a dictionary reference model, with file faults (missing, empty, rewritten between adds) on real scratch files",
+         "Seeded search over add/delete/lookup/read histories on 6 names (strict model) and on alias classes (documented codes only).",
+         "Which spellings alias is not asserted; result of adding an unreadable file is not asserted.", "4/C39"),
  "C01": ("histsim", "exploration", "deterministic simulation of operation histories: seeded op sequences on a carrier mjData, twins manufactured by six routes (copy / state transfer into fresh, reset, used-and-poisoned instances / replay), volatile-state poison and seeded arena garbage as the injected fault, bitwise comparison",
          "Seeded search over (model, history, twin route): any read of stale or uninitialised non-state memory changes bits. Sampling over models and histories, which is what the quantifier (every prior history of the receiver) asks for and unit tests cannot give.",
          "Same binary, same process comparisons only; sleep-enabled models use copy/replay routes only (documented); mj_inverse preceded by mj_forward; documented list of lazily/conditionally computed arrays excluded on state-only routes.", "4/C01"),
